@@ -33,6 +33,7 @@ type ordEval struct {
 	p     *Prog
 	rel   int
 	depth int
+	free  map[string]OrdVal // values of captured variables (by name) of the function evaluated
 }
 
 // EvalOrder evaluates function f, whose parameters are bound to args, under the assumption rel
@@ -40,6 +41,12 @@ type ordEval struct {
 // keys, integer constants and calls to other such functions is understood; anything else is top.
 func EvalOrder(p *Prog, f *ssa.Function, args []OrdVal, rel int) OrdVal {
 	e := &ordEval{p: p, rel: rel}
+	return e.call(f, args)
+}
+
+// EvalOrderWith is EvalOrder for a closure whose captured variables (by name) have the given values.
+func EvalOrderWith(p *Prog, f *ssa.Function, args []OrdVal, rel int, free map[string]OrdVal) OrdVal {
+	e := &ordEval{p: p, rel: rel, free: free}
 	return e.call(f, args)
 }
 
@@ -129,6 +136,11 @@ func (e *ordEval) val(env map[ssa.Value]OrdVal, v ssa.Value) OrdVal {
 	case *ssa.UnOp:
 		switch x.Op {
 		case token.MUL:
+			if fv, ok := x.X.(*ssa.FreeVar); ok && e.depth == 1 {
+				if r, known := e.free[fv.Name()]; known {
+					return r
+				}
+			}
 			// load: value receivers / locals spilled to a cell, or a field of a key
 			if a, ok := x.X.(*ssa.Alloc); ok {
 				st := Stores(a)
